@@ -501,6 +501,33 @@ func c09(r *Report, s *Sem) {
 		}
 		r.Check(R9, "type "+tn+" / decodes any option name", p.pos(nt.Obj().Pos()), bad == "", bad)
 	}
+	R11 := r.Rule("R11", "the selection judged is the selection received: on the server nothing stores into the compression/encryption members of a session envelope other than the literals it builds itself — an omitted option stays omitted (and is refused by the membership gate) instead of being filled in from the transport", 1)
+	{
+		nFns := 0
+		for _, fn := range p.LimeFuncs() {
+			if s.recvKind(topLevel(fn)) != "server" {
+				continue
+			}
+			nFns++
+			eachInstr(fn, func(in ssa.Instruction) {
+				st, ok := in.(*ssa.Store)
+				if !ok {
+					return
+				}
+				f := pathOf(st.Addr).Last()
+				if f == nil || (f.Name() != "Compression" && f.Name() != "Encryption") {
+					return
+				}
+				fa, ok := st.Addr.(*ssa.FieldAddr)
+				if !ok || !typeIs(fa.X.Type(), s.sessionT) {
+					return
+				}
+				_, fresh := stripConv(fa.X).(*ssa.Alloc)
+				r.Check(R11, "func "+fnName(fn)+" / store into Session."+f.Name(), p.instrPos(st), fresh, "the member of a session envelope that was not built here is overwritten with "+describe(st.Val))
+			})
+		}
+		r.Trivial(R11, "server-role functions inspected for stores into a received selection", "-", nFns > 0, fmt.Sprintf("%d functions", nFns))
+	}
 	R8 := r.Rule("R8", "a transport that merely reports its encryption (websocket: TLS belongs to the HTTP layer underneath) records 'tls' only on an edge proving TLS is in use — the listener's TLS-configuration test or the dialled URL's wss scheme — and the listener serves plain HTTP only where that test fails", 4)
 	checkReportedEncryption(r, s, R8)
 }
